@@ -138,6 +138,7 @@ func genPeriod(r *rand.Rand, focus int32) int32 {
 
 // genAmount: amounts biased to the boundaries the statement talks about.
 func (x *runner) genAmount(u int, t *token) *big.Int {
+	x.drain = false
 	r := x.r
 	m := x.m
 	var rem *big.Int
@@ -182,9 +183,10 @@ func (x *runner) genAmount(u int, t *token) *big.Int {
 			}
 		case c < 80:
 			return new(big.Int).Add(randBig(r, 1+r.Intn(64)), bi(1))
-		case c < 88: // balance edge: total == balance / balance+1
+		case c < 86: // balance edge: total == balance / balance+1
 			b := m.bal[u][t.idx]
 			if b.Sign() > 0 {
+				x.drain = true
 				a := new(big.Int).Set(b)
 				if !t.taxExempt(u) {
 					// a ~ b*den/(den+num)
@@ -193,10 +195,14 @@ func (x *runner) genAmount(u int, t *token) *big.Int {
 				}
 				return around(a)
 			}
-		case c < 96: // huge (mostly on the whale token)
-			if t.idx == 0 || r.Intn(4) == 0 {
-				bits := 100 + r.Intn(157)
-				return new(big.Int).Add(randBig(r, bits), bi(1))
+		case c < 96: // huge: up to the size of the balance, sometimes beyond (up to 2^256-1)
+			x.drain = true
+			bits := m.bal[u][t.idx].BitLen()
+			if r.Intn(5) == 0 {
+				bits = 100 + r.Intn(157)
+			}
+			if bits > 1 {
+				return new(big.Int).Add(randBig(r, 1+r.Intn(bits)), bi(1))
 			}
 		case c < 98:
 			if t.idx == 0 || r.Intn(4) == 0 {
@@ -281,7 +287,6 @@ func runHist(c fw.Case, p params, rec *fw.Recorder) {
 			return
 		}
 	}
-	hkey := fmt.Sprintf("hist|%d|", c.Seed)
 	for x.n = 0; x.n < p.Ops && !x.stop; x.n++ {
 		ti := r.Intn(len(e.m.toks))
 		if r.Intn(3) == 0 {
@@ -295,7 +300,15 @@ func runHist(c fw.Case, p params, rec *fw.Recorder) {
 		}
 		switch k := r.Intn(1000); {
 		case k < 760:
+			x.lastID = 0
 			x.send(u, t, x.genAmount(u, t))
+			if x.drain && x.lastID != 0 && r.Intn(100) < 85 && !x.stop {
+				// a transfer that (nearly) emptied the account is usually taken back, so that the
+				// history does not degenerate into insufficient-funds rejections
+				x.n++
+				x.advance(t)
+				x.cancel(u, x.lastID)
+			}
 		case k < 900:
 			ids := x.m.pendingIDs()
 			if len(ids) == 0 {
@@ -356,7 +369,6 @@ func runHist(c fw.Case, p params, rec *fw.Recorder) {
 		}
 	}
 	rec.Count("histories", 1)
-	_ = hkey
 }
 
 // ---------------------------------------------------------------------------------------------
@@ -552,7 +564,7 @@ func cases(tier string, seed int64) []fw.Case {
 	var cs []fw.Case
 	nh, ops := 48, 4000
 	if tier == "thorough" {
-		nh, ops = 320, 8000
+		nh, ops = 640, 12000
 	}
 	cs = append(cs, fw.MkCase("flow", seed*7919+1, params{Mode: "flow"}))
 	for v := 1; v <= 4; v++ {
